@@ -22,7 +22,8 @@ CONSTANTS
   MaxRp = 1
   MaxAssoc = 3
   Slack = 0
+  Bound = 0
   ZonedPanics = FALSE
-INVARIANTS TypeOK MechNat FwdAuthentic FwdOnce ReplyAuthentic ReplyOnce SaltsFresh CreateOnlyValid CreateOnce SrcPrivate OwnerOnly OnePerClient NoCrash HandleTotal
+INVARIANTS TypeOK MechNat FwdAuthentic FwdOnce ReplyAuthentic ReplyOnce SaltsFresh CreateOnlyValid CreateOnce SrcPrivate OwnerOnly SrcStable FwdComplete ReplyComplete OnePerClient NoCrash HandleTotal
 VIEW View
 CHECK_DEADLOCK FALSE
